@@ -95,9 +95,11 @@ Frame(role, arg, v6) ==
                                  THEN {<<"sapling.spends[].spend_auth_sig", "add">>, <<"sapling.spends[].spend_auth_sig", "mod">>}
                                  ELSE {<<arg \o ".actions[].spend.spend_auth_sig", "add">>, <<arg \o ".actions[].spend.spend_auth_sig", "mod">>})
                                 \cup {<<"global.tx_modifiable", "mod">>} \cup ResolveWrites
+      \* (proofs are randomised: proving again replaces the proof)
       [] role = "prove"      -> (IF arg = "sapling"
-                                 THEN {<<"sapling.spends[].zkproof", "add">>, <<"sapling.outputs[].zkproof", "add">>}
-                                 ELSE {<<arg \o ".zkproof", "add">>}) \cup ResolveWrites
+                                 THEN {<<"sapling.spends[].zkproof", d>> : d \in {"add", "mod"}} \cup
+                                      {<<"sapling.outputs[].zkproof", d>> : d \in {"add", "mod"}}
+                                 ELSE {<<arg \o ".zkproof", "add">>, <<arg \o ".zkproof", "mod">>}) \cup ResolveWrites
       [] role = "redact"     -> IF arg \in Protected \/ (arg \in Anchors /\ ~v6) THEN {} ELSE {<<arg, "del">>}
       [] role = "compact"    -> CompactWrites(arg)
       [] role = "resolve"    -> ResolveWrites
